@@ -259,6 +259,20 @@ check("C08",
       "TLA+ exact operators (C08_Operators) with identities model-checked (C08_MC); TLC entrywise trace validation (C08_Trace)",
       "DESIGN.md 6.8")
 
+check("C17",
+      "TLC checks that the square border assignment (C17_Tutte) is injective, lies on the unit square and runs once around it in "
+      "border order for every border length 3..16 (the as-built offsets collide after each corner), with C08_MC guarding the weights. "
+      "TutteEmbedding runs on all enumerated triangle complexes with <= 6 vertices / <= 5 faces (sampled in quick), lattice grids "
+      "(rational cotangent weights), fans with border length 3..16, strips without interior vertex, a closed cube and an annulus, for "
+      "circle / square targets, uniform / cotangent weights and both storages; TLC validates: Euler gate (non-disks rejected), per-vertex "
+      "= per-corner output, border vertices in the border order read off the face list at distinct positions on the target (exact "
+      "rationals on the square; radius^2 = 1 and angle/pi steps of 2/n on the circle), every interior vertex at the weighted mean of its "
+      "neighbours (fixed point 10^-6), all triangles with the same non-zero orientation sign.",
+      "Orientation signs are computed exactly from the returned floats (Fraction) by the harness. Mean condition for cotangent weights only "
+      "where they are multiples of 1/2; orientation clause only for non-negative cotangents and, on the square, when no triangle has all vertices on one side. Custom boundaries not driven.",
+      "TLA+ border-assignment function model-checked for n = 3..16 (C17_MC); TLC trace validation with MeshCore border order and exact weights (C17_Trace)",
+      "DESIGN.md 6.17")
+
 ALL = ["C%02d" % i for i in range(1, 21)]
 
 
